@@ -270,4 +270,18 @@ func genCli() {
 	m.str("mgmtTemplate", tmpl, "mgmtConfigTemplateText")
 	m.strs("mgmtHoles", holes, "every action of the mgmt template with the literal text preceding it on its line")
 	m.strs("mgmtConfWiring", wiring, "fields of mgmtConf as filled by generateMgmtFiles")
+	// the two flag-fed fields take their value from the matching flag (possibly through a helper call)
+	from := func(field, want, other string) bool {
+		for _, w := range wiring {
+			k, v, ok := strings.Cut(w, ":")
+			if ok && strings.TrimSpace(k) == field {
+				return strings.Contains(v, "g.usageReportConfig."+want) && !strings.Contains(v, "g.usageReportConfig."+other)
+			}
+		}
+		return false
+	}
+	m.boolean("mgmtEndpointFromEndpointFlag", from("Endpoint", "Endpoint", "Resolver"),
+		"mgmtConf.Endpoint is computed from usageReportConfig.Endpoint only")
+	m.boolean("mgmtResolverFromResolverFlag", from("Resolver", "Resolver", "Endpoint"),
+		"mgmtConf.Resolver is computed from usageReportConfig.Resolver only")
 }
